@@ -1095,7 +1095,8 @@ class Expression(Expr):
             if value is None:
                 expressions.pop(index)
                 for v in expressions[index:]:
-                    v.index = v.index - 1
+                    if isinstance(v, Expr):
+                        v.index = v.index - 1
                 return
 
             if isinstance(value, list):
